@@ -58,13 +58,35 @@ pub fn gen(seed: u64, n: usize, _tier: &str) -> Vec<Case> {
     let mut wrong: Vec<Vec<u8>> = vec![b"".to_vec(), PW[..PW.len() - 1].to_vec(), [PW, b"x"].concat(), PW.to_ascii_lowercase(), PW.to_ascii_uppercase(),
         b"\xff\xfe".to_vec(), [PW, b"\x00"].concat(), b" s3cret-Pw".to_vec(), b"s3cret-Pw ".to_vec(), b"S3cret-Pw".to_vec()];
     for k in 1..PW.len() { wrong.push(PW[..k].to_vec()); }
+    // same length, same multiset of bytes / same checksums: transpositions, reversal, rotations,
+    // paired bit flips, single-byte changes - whatever a clever-but-wrong comparison might accept
+    for k in 0..PW.len() - 1 { let mut w = PW.to_vec(); w.swap(k, k + 1); if w != PW { wrong.push(w); } }
+    { let mut w = PW.to_vec(); w.reverse(); wrong.push(w); }
+    for k in 1..PW.len() { let mut w = PW.to_vec(); w.rotate_left(k); if w != PW { wrong.push(w); } }
+    for k in 0..PW.len() - 1 { let mut w = PW.to_vec(); w[k] ^= 1; w[k + 1] ^= 1; wrong.push(w); }
+    for k in 0..PW.len() { let mut w = PW.to_vec(); w[k] = w[k].wrapping_add(1); wrong.push(w); }
+    { let mut w = PW.to_vec(); let n = w.len(); w[0] = w[0].wrapping_add(1); w[n - 1] = w[n - 1].wrapping_sub(1); wrong.push(w); }
+    for _ in 0..20 { let mut w = PW.to_vec(); let a = r.below(w.len() as u64) as usize; let b2 = r.below(w.len() as u64) as usize; w.swap(a, b2); if w != PW { wrong.push(w); } }
+    // (c) every wrong password once, each on a fresh connection: refused, and the connection stays gated
+    for chunk in wrong.chunks(12) {
+        let mut ops = vec![server_op(PW), conn_op(9), cmd_op(9, &[b"AUTH", PW]), cmd_op(9, &[b"SET", b"sentinel", b"intact"])];
+        for w in chunk {
+            ops.push(conn_op(1));
+            ops.push(cmd_op(1, &[b"AUTH", w]));
+            ops.push(cmd_op(1, &[b"GET", b"sentinel"]));
+            ops.push(cmd_op(1, &[b"SET", b"sentinel", b"overwritten"]));
+            ops.push(close_op(1));
+        }
+        ops.push(cmd_op(9, &[b"GET", b"sentinel"]));
+        cases.push(Case { id: format!("wrongpw-{}", id), ops, outs: vec![] }); id += 1;
+    }
     for _ in 0..n {
         let mut ops = vec![server_op(PW), conn_op(9), cmd_op(9, &[b"AUTH", PW]), cmd_op(9, &[b"SET", b"sentinel", b"intact"]), conn_op(1), conn_op(2)];
         let mut authed = [false; 3];
         for _ in 0..(2 + r.below(10)) {
             let c = 1 + r.below(2) as i64;
-            match r.below(10) {
-                0 | 1 => { let w = r.pick(&wrong).clone(); ops.push(cmd_op(c, &[b"AUTH", &w])); }
+            match r.below(12) {
+                0 | 1 | 10 | 11 => { let w = r.pick(&wrong).clone(); ops.push(cmd_op(c, &[b"AUTH", &w])); }
                 2 => { ops.push(cmd_op(c, &[b"AUTH", PW])); authed[c as usize] = true; }
                 3 => ops.push(cmd_op(c, &[b"AUTH"])),
                 4 => ops.push(cmd_op(c, &[b"auth", PW, b"extra"])),
